@@ -216,7 +216,7 @@ func TestVerifC18Alerts(t *testing.T) {
 	}
 	cfgs := []cfg{{3, 4, 5, 6, false}, {2, 3, 5, 7, false}, {1, 2, 5, 8, false}, {2, 3, 4, 6, true}}
 	deadline := rep.Deadline(10 * time.Minute)
-	for _, c := range cfgs {
+	for ci, c := range cfgs {
 		evs := c18Alphabet(c.nAlerts)
 		part := fmt.Sprintf("alerts-limit%d", c.limit)
 		c18NoName = c.noName
@@ -246,7 +246,7 @@ func TestVerifC18Alerts(t *testing.T) {
 		if rep.Thorough() {
 			d = c.depthT
 		}
-		e := &seqx.Engine{Alphabet: names, MaxDepth: d, Report: R, Deadline: deadline,
+		e := &seqx.Engine{Alphabet: names, MaxDepth: d, Report: R, Deadline: rep.Share(deadline, ci, len(cfgs)),
 			Run: func(h []int) seqx.Result { return c18Run(t, c.limit, evs, h) }}
 		e.Explore()
 		R.Write()
